@@ -96,6 +96,15 @@ CHECKS = {
         note="The refinement pointer-level model = specification is NOT a theorem; it is established by exhaustive enumeration to length 6 (7 in the thorough tier) and random sequences to length 200. "
              "Hierarchies built by the three loaders are covered through the C09/C10/C11/C14 file-level dumps. HashMap / Vec are trusted.",
     ),
+    "C13": dict(
+        technique="Lean 4 proof (slice/compress = packing of the symbols fetched at the requested bit positions, by induction; entry round trip) + exhaustive sub-range differential in release and debug-assertion builds",
+        text="Lean theorems C13_slice_symbols (for every kind, parent width and [msb:lsb]: the produced bytes render as the parent's symbols at those bit positions), C13_minimal_repack, C13_entry. "
+             "The real slice_signal (hook) is run on parents recorded through the real store for widths 2..40 x ALL sub-ranges x state mixes (plus random wider parents), in the release profile and in a "
+             "profile with debug assertions and overflow checks, and compared with the Lean model and with the substring-of-the-parent specification (canon, minimal kind).",
+        design_ref="DESIGN.md section 5 / C13",
+        note="Four defects found by this check were repaired (F11, F12, F13, F14). The GHW alias range arithmetic (register_bit_vec / find_or_add_alias) and end-to-end GHW files are exercised under C11. "
+             "The composition slice ∘ load is differential, the per-value theorems are unbounded.",
+    ),
 }
 
 NOT_YET = "check not built yet in this round (machinery under construction; see DESIGN.md section 10 for the order of work)"
